@@ -30,6 +30,7 @@ type projOpts struct {
 	stage string
 	out   string
 	tree  bool
+	split bool
 }
 
 func parseOpts(s string) projOpts {
@@ -57,6 +58,8 @@ func parseOpts(s string) projOpts {
 			o.out = v
 		case "tree":
 			o.tree = true
+		case "split":
+			o.split = true
 		}
 	}
 	return o
@@ -105,7 +108,12 @@ func runProject(optS string, files [][2][]byte) (out string) {
 	}()
 	var oo []core.Option
 	oo = append(oo, core.WithFixedSeedForRegex())
-	if len(o.ban) != 0 {
+	if len(o.ban) != 0 && o.split {
+		// one option call per banned kind: the ban set is the union of all calls
+		for _, b := range o.ban {
+			oo = append(oo, core.WithBannedDirectives(b))
+		}
+	} else if len(o.ban) != 0 {
 		oo = append(oo, core.WithBannedDirectives(o.ban...))
 	}
 	switch o.stage {
